@@ -20,6 +20,7 @@ FULL = ["dq", "sq", "bs", "sl", "st", "lp", "rp", "lb", "rb", "lc", "rc", "lt", 
         "lf", "cr", "tab", "sp", "nul", "inv", "u2", "u3", "bom"]
 MID = ["dq", "sq", "bs", "sl", "st", "lp", "rp", "lb", "rb", "lc", "rc", "sc", "eq", "d0", "x", "e", "b", "dot",
        "mi", "lf", "sp", "nul", "inv", "u2"]
+MID4 = ["dq", "sq", "bs", "sl", "st", "lp", "rp", "lb", "rc", "sc", "d0", "x", "e", "dot", "lf", "sp", "nul", "u2"]
 CORE = ["dq", "bs", "sl", "st", "lc", "rc", "rb", "d0", "x", "lf"]
 CORE2 = ["dq", "sq", "bs", "lp", "rp", "lb", "rc", "dot", "d0", "e", "a", "sp"]
 
@@ -206,7 +207,7 @@ TRACE_FILE = {"lex": "tokentile_trace.ndjson", "parse": "expparse_trace.ndjson"}
 TRACE_MODULE = {"lex": "TokenTileTrace", "parse": "ExpParseCallTrace"}
 
 
-def _validate(chunks, stem, parallel=3):
+def _validate(chunks, stem, parallel=4):
     """Run TLC on every chunk; returns (rejects, states, transitions)."""
     rejects, lock = [], threading.Lock()
     totals = {"states": 0, "trans": 0}
@@ -312,13 +313,13 @@ def _plan(tier, prop):
             return {
                 "exh": [("full", FULL, 3, 0), ("mid", MID, 4, 4), ("core", CORE, 5, 5), ("core2", CORE2, 5, 5)],
                 "sim": [("sim", FULL, 24, 100), ("simcore", CORE, 16, 200)],
-                "stride": 11, "depths": [1, 3, 64, 2000],
+                "stride": 29, "depths": [1, 3, 64, 2000],
                 "chunk": 400000, "gen_workers": 3, "gen_parallel": 3, "files_small": 40, "files_large": 2,
             }
         return {                  # one trace per input (it carries the bytes): fewer, but every token is validated
-            "exh": [("full", FULL, 3, 0), ("mid", MID, 4, 4), ("core", CORE, 5, 5), ("core2", CORE2, 4, 4)],
+            "exh": [("full", FULL, 3, 0), ("mid", MID4, 4, 4), ("core", CORE, 5, 5), ("core2", CORE2, 4, 4)],
             "sim": [("sim", FULL, 24, 100), ("simcore", CORE, 16, 200)],
-            "stride": 37, "depths": [1, 3, 64],
+            "stride": 131, "depths": [1, 3, 64],
             "chunk": 400000, "gen_workers": 3, "gen_parallel": 3, "files_small": 40, "files_large": 1,
         }
     return {
